@@ -1,6 +1,143 @@
-(** C38 -- placeholder while the pipeline is brought up *)
-From Coq Require Import NArith.
-From TLV Require Import Rpc.RpcModel.
+(** C38 -- RPC calls receive exactly their own responses; close drains.  (partial)
+
+    What is PROVED here is the pending-calls logic of pkg/rpc/client_conn.go + client.go, transcribed in
+    Rpc/RpcModel.v, composed with an unordered, duplicating network and a server that answers a request
+    under the query ID it arrived with: for ALL event lists (arbitrary interleavings of call / write /
+    server receive / server reply / client receive / stale packet / cancel / timeout / connect / disconnect /
+    ServerWantsFin / Client.Close, subject to causality only).
+    What is NOT proved (and therefore only observed by the correspondence runs): goroutine scheduling, sockets,
+    timers, the server side of the query-ID plumbing, and the absence of data races.
+    Property theorems only; each is closed by [exact] of a lemma of Rpc/RpcProofs.v. *)
+From Coq Require Import NArith ZArith List Bool.
+From TLV Require Import Rpc.RpcModel Rpc.RpcProofs.
+Import ListNotations.
 Open Scope N_scope.
-Example C38_ex_alloc : alloc_qid 1000 = (1001, 1001).
+
+(** Query IDs (ClientImpl.GetRequest, incl. the wrap-around of the 64-bit counter and the skipped 0):
+    the first 2^62 IDs allocated by a client are non-zero, positive int64 and pairwise distinct. *)
+Theorem C38_alloc_distinct : forall n last qs l',
+  last < two64 -> N.of_nat n <= 4611686018427387904 ->
+  alloc_many n last = (qs, l') ->
+  NoDup qs /\ Forall (fun q => q <> 0 /\ q < two63) qs /\ l' < two64.
+Proof. exact alloc_distinct. Qed.
+Print Assumptions C38_alloc_distinct.
+
+(** own_response: whatever the interleaving, a call [q] that was completed with a handler result or a
+    handler error holds the answer computed from the body [b] of its OWN request (the unique call with
+    query ID [q] was started with body [b]); all other completions are the call's own local errors. *)
+Theorem C38_own_response : forall evs s q o b,
+  run sys_init evs = SOk s -> In (q, o) (done s) -> out_body o = Some b ->
+  (exists fail, In (ECall q b fail) evs) /\ (forall b' fail', In (ECall q b' fail') evs -> b' = b).
+Proof. exact own_response. Qed.
+Print Assumptions C38_own_response.
+
+(** complete_once: no call is completed twice, a completed call is not pending, and no started call is lost
+    (it is pending or completed). *)
+Theorem C38_complete_once : forall evs s, run sys_init evs = SOk s ->
+  NoDup (keys (done s)) /\
+  (forall q, In q (keys (done s)) -> ~ In q (keys (cs_calls (cl s)))) /\
+  (forall q b fail, In (ECall q b fail) evs -> In q (keys (cs_calls (cl s))) \/ In q (keys (done s))).
+Proof. exact complete_once. Qed.
+Print Assumptions C38_complete_once.
+
+(** a delivered result is never replaced by a later packet (duplicates, stale packets, late responses). *)
+Theorem C38_completion_stable : forall e1 e2 s1 s2 q o,
+  run sys_init e1 = SOk s1 -> run s1 e2 = SOk s2 -> In (q, o) (done s1) ->
+  In (q, o) (done s2) /\ forall o', In (q, o') (done s2) -> o' = o.
+Proof. exact completion_stable. Qed.
+Print Assumptions C38_completion_stable.
+
+(** close_drains (client): after Client.Close and the next pass of the connection goroutine, no call is
+    pending -- then or ever after -- and every call ever started has been completed. *)
+Theorem C38_close_drains : forall e1 e2 e3 g ex s,
+  run sys_init (e1 ++ ECloseClient :: e2 ++ EDisconnect g ex :: e3) = SOk s ->
+  cs_calls (cl s) = [] /\
+  forall q b fail, In (ECall q b fail) (e1 ++ ECloseClient :: e2 ++ EDisconnect g ex :: e3) -> In q (keys (done s)).
+Proof. exact close_drains. Qed.
+Print Assumptions C38_close_drains.
+
+(** close_drains (server / connection loss): after a disconnect no pending call is sent, has
+    FailIfNoConnection or an expired deadline; unsent calls stay queued for the next connection (the
+    documented life cycle of client.go: they end by their own deadline/cancel if the server never returns). *)
+Theorem C38_disconnect_drains_sent : forall evs g ex s,
+  run sys_init (evs ++ [EDisconnect g ex]) = SOk s ->
+  forall q c, In (q, c) (cs_calls (cl s)) -> c_sent c = false /\ c_fail c = false /\ ~ In q ex.
+Proof. exact disconnect_drains_sent. Qed.
+Print Assumptions C38_disconnect_drains_sent.
+
+(** none of the "rpc.Client invariant violation" panics (inFlight < 0, double sent) is reachable,
+    and inFlight is exactly the number of sent pending calls. *)
+Theorem C38_no_panic : forall evs, run sys_init evs <> SPanic.
+Proof. exact no_panic. Qed.
+Print Assumptions C38_no_panic.
+
+Theorem C38_inflight_exact : forall evs s, run sys_init evs = SOk s ->
+  cs_inFlight (cl s) = count_sent (cs_calls (cl s)).
+Proof. exact inflight_exact. Qed.
+Print Assumptions C38_inflight_exact.
+
+(** soundness of the extracted monitor: a history accepted by [accepts] is a run of the model in which every
+    observed answer of a call is that call's completion in the model, carries the body id the call was started
+    with (in the history and in the model run), and every observed call returned. *)
+Theorem C38_monitor_sound : forall h, accepts h = true ->
+  exists evs s, run sys_init evs = SOk s /\
+    (forall q k b, In (ODone q k b) h -> k = KOk \/ k = KSrvErr ->
+       (exists f t, In (OCall q b f t) h) /\
+       (exists o, In (q, o) (done s) /\ outcome_class o = k /\ outcome_body o = b) /\
+       (exists fail, In (ECall q b fail) evs)) /\
+    (forall q b f t, In (OCall q b f t) h -> exists k b', In (ODone q k b') h).
+Proof. exact accepts_sound. Qed.
+Print Assumptions C38_monitor_sound.
+
+(** Non-vacuity: concrete runs computed by the kernel. *)
+Example C38_ex_alloc_wrap : fst (alloc_many 4 18446744073709551613) = [9223372036854775806; 9223372036854775807; 1; 2].
+Proof. vm_compute. reflexivity. Qed.
+
+(* two calls, answers arrive in the opposite order, a duplicate of the first answer arrives late *)
+Example C38_ex_run :
+  match run sys_init [EConnect; ECall 7 100 false; ECall 8 200 false; EWrite; ESrvRecv 8; ESrvRecv 7;
+                      ESrvReply 8 0; ESrvReply 7 1; ECliRecv 8 (ROk 200); ECliRecv 7 (RErr 100);
+                      ECliRecv 8 (ROk 200); ECliRecvUnknown 9] with
+  | SOk s => done s = [(8, ORespOk 200); (7, OSrvErr 100)] /\ cs_calls (cl s) = [] /\ cs_inFlight (cl s) = 0%Z
+  | _ => False
+  end.
+Proof. vm_compute. auto. Qed.
+
+(* the answer to call 8 cannot be delivered to call 7: the event is not enabled *)
+Example C38_ex_causality :
+  run sys_init [EConnect; ECall 7 100 false; ECall 8 200 false; EWrite; ESrvRecv 8; ESrvReply 8 0; ECliRecv 7 (ROk 200)] = SDisabled.
+Proof. vm_compute. reflexivity. Qed.
+
+(* a query ID cannot be reused *)
+Example C38_ex_fresh : run sys_init [ECall 7 100 false; ECall 7 200 false] = SDisabled.
+Proof. vm_compute. reflexivity. Qed.
+
+(* close drains: sent -> SideEffect, unsent -> NoSideEffect, later calls -> ErrClientClosed *)
+Example C38_ex_close :
+  match run sys_init [EConnect; ECall 7 1 false; EWrite; ECall 8 2 false; ECloseClient; EDisconnect true []; ECall 9 3 false] with
+  | SOk s => done s = [(7, OClosedSideEffect); (8, OClosedNoSideEffect); (9, OClientClosed)] /\ cs_calls (cl s) = []
+  | _ => False
+  end.
+Proof. vm_compute. auto. Qed.
+
+(* monitor: accepts a real-looking history, rejects the same history with the two answers swapped,
+   a call completed twice, and a call that never returns *)
+Example C38_ex_monitor_accepts :
+  accepts [OCall 7 1 false false; OCall 8 2 false true; OSrv 8 2; OSrv 7 1; ODone 8 KOk 2; ODone 7 KSrvErr 1] = true.
+Proof. vm_compute. reflexivity. Qed.
+Example C38_ex_monitor_rejects_swap :
+  accepts [OCall 7 1 false false; OCall 8 2 false true; OSrv 8 2; OSrv 7 1; ODone 8 KOk 1; ODone 7 KSrvErr 2] = false.
+Proof. vm_compute. reflexivity. Qed.
+Example C38_ex_monitor_rejects_twice :
+  accepts [OCall 7 1 false false; OSrv 7 1; ODone 7 KOk 1; ODone 7 KOk 1] = false.
+Proof. vm_compute. reflexivity. Qed.
+Example C38_ex_monitor_rejects_lost :
+  accepts [OCall 7 1 false false; OCall 8 2 false false; OSrv 7 1; ODone 7 KOk 1] = false.
+Proof. vm_compute. reflexivity. Qed.
+
+(** Outside the property (the server breaks the protocol): a response that carries the query ID of a call which
+    was not written yet makes finishCall decrement inFlight below zero -- the Go code panics
+    ("rpc.Client invariant violation: pc.inFlight < 0"); replayed on the real clientConn by the op "pc s:0:n f:0". *)
+Example C38_ex_response_before_send_panics :
+  cl_finish (fst (cl_setup cs_init 7 false 1)) 7 = None.
 Proof. vm_compute. reflexivity. Qed.
